@@ -160,9 +160,13 @@ func Catalogue() []Prog {
 	add("v-once-loop", S, `<div v-for="lk_it in items"><style v-once>.a{}</style><script v-once>1</script><p>{{ lk_it.name }}</p></div>`, nil, nil, false)
 	add("filters", S, `<p>{{ title | upper }} {{ user.name | lower | title }} {{ items | len }} {{ missing | default("dflt") }} {{ title | shout }} {{ n | add(2) }}</p>`, nil, nil, false)
 	add("ctxfunc-in-expressions", S, `<p v-if="ctxget('title') != ''" :data-n="ctxget('n') + 1" :title="upper(ctxget('title'))">{{ ctxget('title') | upper }} {{ ctxget('title') }} {{ ctxget('n') > 3 ? "big" : "small" }}</p><i v-show="ctxget('show')">s</i>`, nil, nil, false)
+	// rows of two different anonymous struct types read by JSON tag: what one type's fields are must not depend on
+	// which of the two a process happened to see first (the programs sit 3 apart: different workers meet them in different order)
+	add("anon-struct-rows-a", S, `<ul><li v-for="r in rows" :data-id="r.id">{{ r.title }} - {{ r.mail }}</li></ul>`, nil, map[string]TV{"rows": {K: "anonRowsA"}}, false)
 	add("exprs", S, `<p>{{ n > 3 ? "big" : "small" }} {{ n + 1 }} {{ show && !hide }} {{ user.name == "Ann" }}</p>`, nil, nil, false)
 	add("json-script", S, `<script>var d = {{ user | json }};</script><pre>{{ user | json }}</pre>`, nil, nil, false)
 	add("template-vars", S, `<template :lk_tmpl="n + 1"><p>{{ lk_tmpl }}</p></template><p>after</p>`, nil, nil, false)
+	add("anon-struct-rows-b", S, `<ul><li v-for="r in rows" :data-id="r.id">{{ r.title }} - {{ r.mail }}</li></ul>`, nil, map[string]TV{"rows": {K: "anonRowsB"}}, false)
 	add("bracket-attrs", S, `<p [v-if]="keep" [:k]="raw" [@click]="go()">x</p>`, nil, nil, false)
 
 	add("file-vhtml", F, `<div v-html="html"></div><template v-html="html"></template><p v-text="title"></p><template :tv="title"><i>{{ tv }}</i></template><b :title="user.name">{{ n }}</b>`, nil, nil, false)
